@@ -11,6 +11,7 @@ import (
 	"sort"
 	"strconv"
 	"strings"
+	"sync"
 
 	"golang.org/x/tools/go/packages"
 	"golang.org/x/tools/go/ssa"
@@ -24,24 +25,24 @@ type Engine struct {
 	Fset    *token.FileSet
 	Pkgs    []*packages.Package
 	Prog    *ssa.Program
-	SPkgs   map[string]*ssa.Package      // by pkg path
-	PPkgs   map[string]*packages.Package // by pkg path
+	SPkgs   map[string]*ssa.Package        // by pkg path
+	PPkgs   map[string]*packages.Package   // by pkg path
 	ByName  map[string][]*packages.Package // by package name
 
 	Contracts map[*ssa.Function]*Contract
-	Items     []*Contract // in file order (funcs, lemmas)
+	Items     []*Contract          // in file order (funcs, lemmas)
 	SpecFuncs map[string]*SpecFunc // key pkgpath + "." + name
 	Tables    []*TableSpec
 	IfaceCons map[string]*Contract // key: types.Func FullName of interface method
 	FieldCons map[string]*Contract // key: "pkgpath.Type.field" of func-typed fields
 
-	Effects   map[*ssa.Function]*Effect
-	AllFuncs  []*ssa.Function
-	keyTypes  map[string]keyType
-	implCache map[string][]*ssa.Function
+	Effects       map[*ssa.Function]*Effect
+	AllFuncs      []*ssa.Function
+	keyTypes      map[string]keyType
+	implCache     map[string][]*ssa.Function
 	ConcreteTypes []types.Type // all named types (and pointers) in module, for iface tags
-	typeIDs   map[string]int
-	typeByID  []types.Type
+	typeIDs       map[string]int
+	typeByID      []types.Type
 
 	LoadErrs []string
 }
@@ -56,6 +57,7 @@ type Clause struct {
 type LoopSpec struct {
 	Invariants []*Clause
 	Decreases  *Clause
+	Uses       []*Clause
 }
 
 type Contract struct {
@@ -133,7 +135,7 @@ func loadEngine(repo string) (*Engine, error) {
 	eng.Fset = fset
 	cfg := &packages.Config{Mode: packages.LoadAllSyntax, Dir: repo, Fset: fset,
 		BuildFlags: []string{"-tags=verif"},
-		Env: append(os.Environ(), "GOFLAGS=-mod=mod", "GOPROXY=off", "GOSUMDB=off", "GOTOOLCHAIN=local")}
+		Env:        append(os.Environ(), "GOFLAGS=-mod=mod", "GOPROXY=off", "GOSUMDB=off", "GOTOOLCHAIN=local")}
 	pkgs, err := packages.Load(cfg, "./...")
 	if err != nil {
 		return nil, err
@@ -195,7 +197,11 @@ func (eng *Engine) collectTypes() {
 	}
 }
 
+var engMu sync.Mutex
+
 func (eng *Engine) typeID(t types.Type) int {
+	engMu.Lock()
+	defer engMu.Unlock()
 	k := t.String()
 	if id, ok := eng.typeIDs[k]; ok {
 		return id
@@ -409,6 +415,10 @@ func (eng *Engine) loadContractFile(pkg *packages.Package, file string) error {
 				case strings.HasPrefix(rest, "invariant"):
 					if cl := parseE(rc, strings.TrimSpace(rest[len("invariant"):])); cl != nil {
 						ls.Invariants = append(ls.Invariants, cl)
+					}
+				case strings.HasPrefix(rest, "use"):
+					if cl := parseE(rc, strings.TrimSpace(rest[len("use"):])); cl != nil {
+						ls.Uses = append(ls.Uses, cl)
 					}
 				case strings.HasPrefix(rest, "decreases"):
 					if cl := parseE(rc, strings.TrimSpace(rest[len("decreases"):])); cl != nil {
